@@ -161,23 +161,25 @@ pub fn insert_zst(mode: u8, c: usize, r: usize) {
 }
 
 /// Rejected calls: index > dim (full range) or supplied length != dim on a non-empty array.
-/// what: 0 = bad index, 1 = bad length
+/// what: 0 = bad index (symbolic, full range), 1 = one item too many, 2 = one too few, 3 = no items
 pub fn insert_rejected(mode: u8, c: usize, r: usize, what: u8) {
     let mut t = owned_tok(c, r, false);
     let is_row = mode < 2;
     let dim = if is_row { r } else { c };
     let line = if is_row { c } else { r };
+    // the wrong length is concrete per harness (a Vec of symbolic length is what CBMC cannot digest)
     let (idx, len) = if what == 0 {
         let i = nd::usize_();
         nd::assume(i > dim);
         (i, line)
+    } else if what == 1 {
+        (nd::upto(dim), line + 1)
+    } else if what == 2 {
+        (nd::upto(dim), line - 1)
     } else {
-        let l = nd::upto(line + 1);
-        nd::assume(l != line);
-        (nd::upto(dim), l)
+        (nd::upto(dim), 0)
     };
-    let mut items = toks(line + 1, 100);
-    items.truncate(len);
+    let items = toks(len, 100);
     if is_row {
         t.insert_row(idx, items);
     } else {
